@@ -249,7 +249,7 @@ def _generator_cases(ctx, rnd, cs, n, kind, gi, nev, quick):
         steps.append((ur.vals[0], ur.vals[1], [arr(p) for p in prev], [arr(p) for p in p_list]))
     if len(ref) != len(p_list) or any(not np.array_equal(x, arr(y)) for x, y in zip(ref, p_list)):
         bad("E.wiring", "generate_momentum is not the sequence of generate_momentum_i steps modelled")
-    for k in range(min(N, 2 if quick else N)):
+    for k in range(min(N, 2 if quick else 3)):
         cid = "%s_e%d" % (gid, k)
         for i, (u1, u2, prev, out) in enumerate(steps):
             ct = float(arr(2 * tf.constant(u1[k], tf.float64) - 1)); ph = float(arr(2 * math.pi * tf.constant(u2[k], tf.float64)))
@@ -260,7 +260,10 @@ def _generator_cases(ctx, rnd, cs, n, kind, gi, nev, quick):
             # sqrt conditioning near threshold: absolute tolerance relative to the parent mass
             tb = (tol_w() if i == n - 2 else 1e-8) * M1
             cs.add("E.two_body", "%s_s%d_p" % (cid, i), s_vec("two_body_p " + args, out[0][k], rtol=0, atol=tb, scale=1.0), dict(meta, function="generate_momentum_i", step=i, impl=out[0][k].tolist()))
-            rec = np.array([math.sqrt(q * q + M0 * M0), out[0][k][1], out[0][k][2], out[0][k][3]])
+            # recoil vector as the implementation built it: |p| taken from its own new-particle momentum (in the last
+            # step the implementation's q carries the float32 rounding of F-C10-1)
+            q_impl2 = float(np.sum(out[0][k][1:] ** 2))
+            rec = np.array([math.sqrt(q_impl2 + M0 * M0), out[0][k][1], out[0][k][2], out[0][k][3]])
             if not prev:
                 cs.add("E.recoil", "%s_s%d_r" % (cid, i), s_vec("neg4 (two_body_recoil %s)" % args, out[1][k], rtol=0, atol=tb, scale=1.0), dict(meta, function="generate_momentum_i", step=i, impl=out[1][k].tolist()))
             else:
@@ -502,7 +505,7 @@ def run(ctx):
     gi = 0
     for n in (2, 3, 4, 5, 6):
         for kind in (kinds[(n + j) % 4] for j in range(1 if quick else 4)):
-            pyfails += generator_cases(ctx, rnd, cs, n, kind, gi, 2 if quick else 6, quick)
+            pyfails += generator_cases(ctx, rnd, cs, n, kind, gi, 2 if quick else 4, quick)
             gi += 1
     ctx.log("generator goals", len(cs.items), "python failures", len(pyfails))
     pyfails += count_cases(ctx, rnd, cs, quick)
